@@ -343,5 +343,12 @@ func GetSCTs(ctx context.Context, submitter Submitter, chain []ct.ASN1Cert, asPr
 			groupComplete[g.Name] = g.Success
 		}
 	}
+	// All group races are over. A race judges its group when the logs it may
+	// ask itself are exhausted; an SCT obtained afterwards on behalf of another
+	// group may still have completed it, so the verdict is taken from the shared
+	// state.
+	for _, g := range groups {
+		groupComplete[g.Name] = submissions.groupComplete(g.Name)
+	}
 	return submissions.collectSCTs(), completenessError(groupComplete)
 }
